@@ -16,6 +16,7 @@
 From Coq Require Import List ZArith Lia.
 Import ListNotations.
 From V Require Import Valid.Hier Model.Graph Model.Prune Model.Src Model.SrcProof Model.SrcIdx Model.SrcPrune.
+From V Require Model.SrcE Model.SrcERefute.
 
 Theorem C08_prune_unreachable :
   forall g entry g', prune_unreachable g entry = Some g' ->
@@ -84,22 +85,39 @@ Print Assumptions C08_pruned_graph_means_source.
 
 (* non-vacuity: a state that records every statement and test executed, tests answered
    from a decision list;   while c1: (if c2: break else: a3); a4   else: a5;   return r6 *)
-Definition tstate := (list Z * list bool)%type.
-Definition tact (a : Z) (s : tstate) : option tstate := Some (a :: fst s, snd s).
-Definition ttest (c : Z) (s : tstate) : option (bool * tstate) :=
+Definition xstate := (list Z * list bool)%type.
+Definition tact (a : Z) (s : xstate) : option xstate := Some (a :: fst s, snd s).
+Definition ttest (c : Z) (s : xstate) : option (bool * xstate) :=
   match snd s with [] => None | d :: ds => Some (d, (c :: fst s, ds)) end.
 Definition prog1 : stmts :=
   SCons (SWhile 1 (SCons (SIf 2 (SCons (SBreak 7) SNil) (SCons (SAct 3) SNil)) (SCons (SAct 4) SNil))
                   (SCons (SAct 5) SNil))
         (SCons (SRet 6) SNil).
 Example C08_skeleton_example :
-  exec tstate tact ttest 20 prog1 ([], [true; false; true; true]) = ORet 6 ([6; 2; 1; 4; 3; 2; 1], []) /\
-  run tstate tact ttest (build prog1) 20 0 ([], [true; false; true; true]) = ORet 6 ([6; 2; 1; 4; 3; 2; 1], []) /\
-  exec tstate tact ttest 20 prog1 ([], [true; false; false]) = ORet 6 ([6; 5; 1; 4; 3; 2; 1], []) /\
-  run tstate tact ttest (build prog1) 20 0 ([], [true; false; false]) = ORet 6 ([6; 5; 1; 4; 3; 2; 1], []) /\
+  exec xstate tact ttest 20 prog1 ([], [true; false; true; true]) = ORet 6 ([6; 2; 1; 4; 3; 2; 1], []) /\
+  run xstate tact ttest (build prog1) 20 0 ([], [true; false; true; true]) = ORet 6 ([6; 2; 1; 4; 3; 2; 1], []) /\
+  exec xstate tact ttest 20 prog1 ([], [true; false; false]) = ORet 6 ([6; 5; 1; 4; 3; 2; 1], []) /\
+  run xstate tact ttest (build prog1) 20 0 ([], [true; false; false]) = ORet 6 ([6; 5; 1; 4; 3; 2; 1], []) /\
   match sprune (build prog1) 0 with
-  | Some (G', e') => run tstate tact ttest G' 20 e' ([], [true; false; false]) = ORet 6 ([6; 5; 1; 4; 3; 2; 1], [])
+  | Some (G', e') => run xstate tact ttest G' 20 e' ([], [true; false; false]) = ORet 6 ([6; 5; 1; 4; 3; 2; 1], [])
                      /\ (length G' < length (build prog1))%nat
   | None => False
   end.
 Proof. vm_compute. repeat split; lia. Qed.
+
+(* ---------- where the full statement is false of the faithful model (Model/SrcE.v: the front end
+   with handle_expression / handle_bool_op): refuted by witnesses; replayed on the implementation
+   they are the known findings K-expr and K2 ---------- *)
+Theorem C08_expr_order_refuted :
+  exists s1 s2, SrcE.exec SrcERefute.tstate SrcERefute.t_aval SrcERefute.t_opf SrcERefute.t_act SrcERefute.t_foract SrcERefute.t_fortest 10 SrcERefute.prog_kexpr [] = SrcE.ORet 9 s1 /\
+                SrcE.run SrcERefute.tstate SrcERefute.t_aval SrcERefute.t_opf SrcERefute.t_act SrcERefute.t_foract SrcERefute.t_fortest (SrcE.build SrcERefute.prog_kexpr) 10 0 [] [] = SrcE.ORet 9 s2 /\
+                s1 <> s2.
+Proof. exact SrcERefute.expr_order_refuted. Qed.
+Print Assumptions C08_expr_order_refuted.
+
+Theorem C08_nested_boolop_refuted :
+  exists s1 s2, SrcE.exec SrcERefute.tstate SrcERefute.t_aval SrcERefute.t_opf SrcERefute.t_act SrcERefute.t_foract SrcERefute.t_fortest 10 SrcERefute.prog_k2 [] = SrcE.ORet 9 s1 /\
+                SrcE.run SrcERefute.tstate SrcERefute.t_aval SrcERefute.t_opf SrcERefute.t_act SrcERefute.t_foract SrcERefute.t_fortest (SrcE.build SrcERefute.prog_k2) 10 0 [] [] = SrcE.ORet 9 s2 /\
+                s1 <> s2.
+Proof. exact SrcERefute.nested_boolop_refuted. Qed.
+Print Assumptions C08_nested_boolop_refuted.
